@@ -25,6 +25,7 @@ type IntegGen struct {
 	DurMax      int    // ms
 	Names       string // "simple" | "ascii"
 	ExportPct   int
+	HookOutput  bool // before/after hooks print something too (it is not part of the captured output)
 	StageGen    SchedGenParams
 }
 
@@ -273,7 +274,7 @@ func GenTaskWorld(ch *Choices, p IntegGen) *IntegWorld {
 			plan(execID(nm, "cond", 0, ""), 50, false)
 		}
 		for i := 0; i < t.NBefore; i++ {
-			plan(execID(nm, "before", i, ""), p.HookFailPct, false)
+			plan(execID(nm, "before", i, ""), p.HookFailPct, p.HookOutput)
 		}
 		vars := []string{""}
 		if t.NVar > 0 {
@@ -288,7 +289,7 @@ func GenTaskWorld(ch *Choices, p IntegGen) *IntegWorld {
 			}
 		}
 		for i := 0; i < t.NAfter; i++ {
-			plan(execID(nm, "after", i, ""), p.HookFailPct, false)
+			plan(execID(nm, "after", i, ""), p.HookFailPct, p.HookOutput)
 		}
 	}
 	return w
@@ -314,7 +315,9 @@ func runIntegJob(c *Ctl, job *Job, idx int, res *RunResult) {
 	case "c06":
 		prof.Checks["C06"] = true
 		prof.Checks["C07"] = true
+		gen.HookOutput = true
 		w = GenTaskWorld(c.Ch, gen)
+		w.Format = []string{"raw", "prefixed", "cockpit"}[c.Ch.Weighted([]int{3, 2, 1}, "format")]
 	case "c07":
 		prof.Checks["C06"] = true
 		prof.Checks["C07"] = true
@@ -336,7 +339,11 @@ func runIntegJob(c *Ctl, job *Job, idx int, res *RunResult) {
 			c.Count("c07_systematic_status_position")
 		} else {
 			gen.FailProb = 35
+			gen.OutputProb = 50
+			gen.HookOutput = true
 			w = GenTaskWorld(c.Ch, gen)
+			// what is reported must not depend on how the output is presented
+			w.Format = []string{"raw", "prefixed", "cockpit"}[c.Ch.Weighted([]int{2, 3, 1}, "format")]
 		}
 	case "c11":
 		prof.Checks["C11"] = true
@@ -349,6 +356,7 @@ func runIntegJob(c *Ctl, job *Job, idx int, res *RunResult) {
 		gen.ChainProb = 25
 		gen.ExportPct = 25
 		gen.Names = "ascii"
+		gen.HookOutput = true
 		gen.StageGen.CondProb = 8
 		w = GenTaskWorld(c.Ch, gen)
 		// the captured output must not depend on the output format chosen for the terminal
